@@ -962,6 +962,13 @@ func (e *SpecEnv) call(x *spec.Call) Val {
 			vc.Assumed["A10: reflect enumerates exactly the exported methods go/types reports for *"+sl.Val] = true
 			return Val{T: B, Term: or(alts...)}
 		}
+	case "runeLen":
+		// runeLen(s): len([]rune(s))
+		if need(1) {
+			vc.declareFun("to_runes", []string{"String"}, "Slice_Int")
+			vc.S.Sort(types.NewSlice(types.Typ[types.Rune]))
+			return Val{T: I, Term: fmt.Sprintf("(len_Slice_Int (to_runes %s))", argT(0))}
+		}
 	case "tlen":
 		if need(0) {
 			_, lc := vc.traceCells(e.state())
